@@ -2,7 +2,7 @@
 # Re-run every kept seeded mutant against the quick check recorded as catching it, in a scratch
 # worktree of /repo (PTERA_SRC), so /repo itself is never modified.
 # usage: tools/seedall.sh [pattern]   -> one line per seed: CAUGHT / MISSED
-cd /verif
+cd "$(dirname "$0")/.."
 WT=/tmp/seedwt_$$
 git -C /repo worktree add -q --detach $WT HEAD || exit 3
 trap "git -C /repo worktree remove --force $WT" EXIT
@@ -11,7 +11,7 @@ for d in seeded/${1:-*}/; do
   checks=$(/venv/bin/python -c "import json;print(' '.join(json.load(open('$d/meta.json'))['caught_by_quick_checks']))")
   first=$(echo $checks | cut -d' ' -f1)
   git -C $WT reset -q --hard; git -C $WT clean -fdq
-  if ! git -C $WT apply /verif/$d/patch.diff 2>/dev/null; then echo "$id PATCH-DOES-NOT-APPLY"; continue; fi
+  if ! git -C $WT apply $PWD/$d/patch.diff 2>/dev/null; then echo "$id PATCH-DOES-NOT-APPLY"; continue; fi
   out=$(PTERA_SRC=$WT VERIF_JOBS=${SEED_JOBS:-8} timeout 1800 ./check $first --tier quick 2>&1); rc=$?
   n=$(echo "$out" | grep -c '^VIOLATION')
   if [ $rc -eq 1 ] && [ $n -gt 0 ]; then echo "$id CAUGHT by $first ($n violation lines)"; else echo "$id MISSED by $first rc=$rc"; fi
